@@ -600,11 +600,11 @@ func (g *gen) requests(sc Scenario, views []fracView, tier string) []request {
 			withDocs = append(withDocs, k)
 		}
 	}
-	maxIDs := 300
+	maxIDs := 200
 	nreq := 8
 	switch sc.Kind {
 	case "big":
-		maxIDs, nreq = 2000, 5
+		maxIDs, nreq = 2000, 4
 	case "large-docs":
 		maxIDs, nreq = 1500, 4
 	}
@@ -614,6 +614,7 @@ func (g *gen) requests(sc Scenario, views []fracView, tier string) []request {
 	}
 	kinds := []string{"present", "mixed", "mixed", "absent", "border", "hints", "hints", "absent-heavy", "absent-heavy", "dups", "mixed-sorted"}
 	var out []request
+	forceBig := false
 	add := func(kind string, n int) {
 		seen := map[[2]uint64]bool{}
 		var ids []ReqID
@@ -681,7 +682,11 @@ func (g *gen) requests(sc Scenario, views []fracView, tier string) []request {
 			}
 			rng.Shuffle(r, ids)
 		case "absent-heavy": // many IDs, very few (small) documents found: found bytes / requested IDs < 1
-			n = max(n, 1001+r.Intn(maxIDs))
+			if forceBig {
+				n = 1001 + r.Intn(maxIDs) // more than the initial chunk of 1000 IDs
+			} else {
+				n = max(n, 20)
+			}
 			small := []DocSpec{}
 			for _, p := range present {
 				if p.d.Len <= 40 {
@@ -765,7 +770,9 @@ func (g *gen) requests(sc Scenario, views []fracView, tier string) []request {
 		}
 		add(kind, n)
 	}
+	forceBig = sc.Kind != "small" && sc.Kind != "dup-fracs" || r.Chance(1, 3)
 	add("absent-heavy", 0)
+	forceBig = false
 	add("border", 0)
 	if sc.Kind == "recent" {
 		add("mid-above-int64", r.Range(2, 30))
@@ -1194,7 +1201,7 @@ func main() {
 
 	// scenario plan
 	var kinds []string
-	nsmall, nbig, nlarge, nrecent := 36, 3, 2, 2
+	nsmall, nbig, nlarge, nrecent := 36, 2, 2, 2
 	if *tier == "thorough" {
 		nsmall, nbig, nlarge, nrecent = 220, 12, 8, 8
 	}
